@@ -36,6 +36,15 @@ checks = {
  "C19": ("fault_enumeration", "all k<=2 (thorough: + seeded k=3) plans of drop / duplicate / short delay / long delay over the named datagrams of the DTLCP handshake under virtual time, with reduction of failing plans to minimal causes",
    "Real client and server on a simulated datagram network under the vs kernel's virtual clock; faults address datagrams by what they carry (CH0, HVR, CH1, F4, F5a, F5b, F6, F4r) and occurrence. Oracle: both complete within initial_timeout*(2^k-1)+slack, agree, echo works, and no timer expires in the fault-free run. Failing plans are reduced (singles, pairs, stale-copy test) to canonical signatures; the genuine retransmission defects that remain are listed in known_findings.json and printed as KNOWN-FINDING.",
    "Trusted: default timer values; virtual time advances only when every task is blocked.", "5/C19"),
+ "C15": ("exploration", "seeded (path MTU x suite x payload size) workloads on real DTLCP endpoints with every datagram captured and measured, including retransmitted flights provoked by injected loss",
+   "Path MTU drawn independently per side from 200 to above the record limit, payload sizes around the exact maximum payload computed from the record format by the reference implementation, WriteTo/ReadFrom and Write/Read, 0-2 injected losses of handshake datagrams whose retransmission works. Oracle: every datagram handed to the PacketConn <= sender's MTU, records <= 16384 plaintext, one WriteTo = one datagram = one ReadFrom payload, large writes complete and in order. Two genuine defects remain and are printed as KNOWN-FINDING (whole flight in one datagram; empty payload not sent).",
+   "Trusted: maximum payload as computed by package ref.", "5/C15"),
+ "C16": ("exploration", "seeded delivery histories (reorder, duplicate, replay, gaps, forgeries) injected by the simulated network into an established real DTLCP connection, judged by a set-based reference model",
+   "The network holds back N genuine records and delivers a seeded sequence with duplicates, old replays, forged variants (bit flips, wrong epoch, rewritten sequence number, garbage) and sequences built around the window edge; ReplayWindow default and 32..160, GCM and CBC, ReadFrom and Read. Oracle: delivered payloads were sent, none twice, forgeries never delivered and without effect, genuine first arrivals inside max(32,min(cfg,64)) or newer are delivered. Plus model comparison of the window object through the hook.",
+   "Trusted: the set model of the effective window as stated in the property.", "5/C16"),
+ "C17": ("exploration", "seeded path-MTU pairs on real endpoints (monitor recomputes Finished over unfragmented messages) and Byzantine fragment sets from a scripted peer, plus model comparison of the reassembly buffer",
+   "pmtu mode: independent MTUs 100..2000 on both sides, completion/agreement/echo and monitor-derived Finished independent of the MTUs. frag mode: a scripted peer cuts one message into random partitions in arbitrary order with overlaps and duplicates (must complete), with a gap (must not), with fragments beyond the announced length and with conflicting lengths; pending fragment state bounded. Late duplicate fragments are a KNOWN-FINDING.",
+   "Trusted: MTU below 100 need not work; rejecting = failing the handshake is acceptable for out-of-range/conflicting fragments.", "5/C17"),
 }
 not_applicable = {
  "C14": "pure function of its input (marshal/unmarshal): no schedule, clock, transport, peer or history enters; input generation is not a simulation target (DESIGN.md section 7). What the simulator sees of the codec is covered under C03/C04/C09.",
